@@ -22,6 +22,10 @@ def act_harness(a):
     k = a[0]
     if k in ("new", "setnum", "measure", "sample", "threads"):
         return "%s %d" % (k, a[1])
+    if k in ("freq", "samplestats"):
+        return "%s %d %d" % (k, a[1], a[2])
+    if k == "seqfreq":
+        return "seqfreq %d %d %d" % (a[1], a[2], a[3])
     if k == "with":
         return "with %d %d" % (a[1], a[2])
     if k == "raw":
@@ -73,6 +77,12 @@ def parse_records(payload):
             out.append(("x", t[1] if len(t) > 1 else "?", " ".join(t[2:])))
         elif t[0] == "t":
             out.append(("t", t[1]))
+        elif t[0] == "f":
+            k = int(t[1])
+            out.append(("f", {int(t[2 + 2 * i]): int(t[3 + 2 * i]) for i in range(k)}))
+        elif t[0] == "s":
+            k = int(t[1])
+            out.append(("s", [unhexf(x) for x in t[2:2 + k]], [unhexf(x) for x in t[2 + k:2 + 2 * k]]))
         elif t[0] == "v":
             out.append(("v", int(t[1]), int(t[2])))
         else:
@@ -85,7 +95,7 @@ def model_actions(acts, recs):
     Returns (term, expected_record_kinds)."""
     items = []
     ri = 0
-    recs = [r for r in recs if r[0] not in ("t", "o", "v")]
+    recs = [r for r in recs if r[0] not in ("t", "o", "v", "f", "s")]
     for a in acts:
         k = a[0]
         if k == "new":
@@ -94,7 +104,7 @@ def model_actions(acts, recs):
             items.append("AWith %s %s" % (cN(a[1]), cN(a[2])))
         elif k == "raw":
             items.append("ARaw %s %s" % (cN(a[1]), clist([ccomplex(z) for z in a[2]])))
-        elif k in ("threads", "polar", "vreglen"):
+        elif k in ("threads", "polar", "vreglen", "freq", "seqfreq", "samplestats"):
             continue
         elif k == "apply":
             items.append("AApply %s" % to_coq(a[1]))
@@ -152,7 +162,7 @@ def parse_model_records(v):
 
 def records_agree(ri, rm, tol=TOL):
     """first disagreement index or None"""
-    ri = [r for r in ri if r[0] not in ("t", "o", "v")]
+    ri = [r for r in ri if r[0] not in ("t", "o", "v", "f", "s")]
     n = max(len(ri), len(rm))
     for k in range(n):
         if k >= len(ri) or k >= len(rm):
